@@ -112,12 +112,48 @@ def parse_form(s):
     if k[0] == '2':
         return (mkstr(k[1], n), mkstr(k[2], v))
     if k[0] == '3':
-        return (mkstr(k[2], n), mkstr(k[3], v), k[1] == 't')
+        # third element: f/t = False/True, n = None, 0 / 1 = the ints (falsy / truthy non-bool marks)
+        flag = {'f': False, 't': True, 'n': None, '0': 0, '1': 1}[k[1]]
+        return (mkstr(k[2], n), mkstr(k[3], v), flag)
     if k[0] == 'H':
         return HeaderTuple(mkstr(k[1], n), mkstr(k[2], v))
     if k[0] == 'N':
         return NeverIndexedHeaderTuple(mkstr(k[1], n), mkstr(k[2], v))
+    if k[0] == 'T':      # application subclass of HeaderTuple
+        return AppHeader(mkstr(k[1], n), mkstr(k[2], v))
+    if k[0] == 'S':      # application subclass of NeverIndexedHeaderTuple
+        return AppSecretHeader(mkstr(k[1], n), mkstr(k[2], v))
     raise ValueError(s)
+
+
+class AppHeader(HeaderTuple):
+    __slots__ = ()
+
+
+class AppSecretHeader(NeverIndexedHeaderTuple):
+    __slots__ = ()
+
+
+SHARED = bytearray()      # a receive buffer the "application" reuses: overwritten in place for every #buf=shared op
+
+
+def shared_buf(data):
+    SHARED[:] = data
+    return SHARED
+
+
+_other = None
+
+
+def other_coder():
+    """a HuffmanEncoder over a DIFFERENT (reversed) code table, as an application might build for its own use"""
+    global _other
+    if _other is None:
+        from hpack.huffman import HuffmanEncoder
+        hc = huff_coder()
+        _other = HuffmanEncoder(list(reversed(hc.huffman_code_list[:256])) + [hc.huffman_code_list[256]],
+                                list(reversed(hc.huffman_code_list_lengths[:256])) + [hc.huffman_code_list_lengths[256]])
+    return _other
 
 
 tables, encs, decs, lastout = {}, {}, {}, {}
@@ -161,9 +197,17 @@ def step(toks, ann):
                 data = memoryview(data)
             elif ann.get('buf') == 'bytearray':
                 data = bytearray(data)
+            elif ann.get('buf') == 'shared':
+                data = shared_buf(data)
             return 'ok ' + hx(decode_huffman(data))
         except Exception as e:
             return canon(e)
+    if op == 'hother':
+        try:
+            other_coder().encode(unhex(toks[1]))
+        except Exception:
+            pass
+        return 'ok'
     if op == 'hrt':
         try:
             return 'ok ' + hx(decode_huffman(huff_coder().encode(unhex(toks[1]))))
@@ -264,6 +308,8 @@ def step(toks, ann):
                     data = memoryview(data)
                 elif buf == 'memoryview-bytearray':
                     data = memoryview(bytearray(data))
+                elif buf == 'shared':
+                    data = shared_buf(data)
                 out = d.decode(data, raw=(toks[2] == '1'))
                 return 'ok ' + show_headers(out) + ' | ' + show_dec(d)
             if op == 'dtrace':
